@@ -76,12 +76,12 @@ ASSUMPTIONS = [
 ]
 BUDGET = {"quick": 60, "thorough": 540}
 FLOORS = {
-    "quick": {"evaluations": 2300, "distinct_nontrivial": 1900,
-              "counters": {"results_checked": 2000, "partitions_observed": 12000, "npartitions_checked": 1100,
-                           "npartitions_more": 500, "npartitions_fewer": 500, "npartitions_above_row_count": 200,
-                           "divisions_checked": 550, "divisions_force": 270, "divisions_outer_changed": 240,
-                           "expected_error": 130, "divisions_monitor_runs": 800, "compute_views": 330,
-                           "source_unknown_divisions": 750, "source_with_empty_partitions": 170},
+    "quick": {"evaluations": 1950, "distinct_nontrivial": 1600,
+              "counters": {"results_checked": 1700, "partitions_observed": 10000, "npartitions_checked": 950,
+                           "npartitions_more": 420, "npartitions_fewer": 450, "npartitions_above_row_count": 160,
+                           "divisions_checked": 450, "divisions_force": 200, "divisions_outer_changed": 180,
+                           "expected_error": 100, "divisions_monitor_runs": 620, "compute_views": 250,
+                           "source_unknown_divisions": 580, "source_with_empty_partitions": 130},
               "sets": {"target_feature": 12}, "max_skipped_fraction": 0.15},
     "thorough": {"evaluations": 22000, "distinct_nontrivial": 17500,
                  "counters": {"results_checked": 19000, "partitions_observed": 110000, "npartitions_checked": 7500,
@@ -166,7 +166,7 @@ def cases(tier, seed):
                 yield {"space": "exhaustive", "e": "dups", "sdiv": sd, "known": True,
                        "t": {"k": "divisions", "d": td, "force": False}}
     # ---- random
-    k = 3200 if tier == "quick" else 40000
+    k = 2400 if tier == "quick" else 40000
     for _ in range(k):
         nrows = rng.choice((0, 1, 2, 3, 5, 6, 8)) if rng.random() < 0.25 else rng.randint(4, 40)
         kind = rng.choice(INDEX_KINDS)
